@@ -261,7 +261,9 @@ func normalize(opts *options, from interface{}) (*Config, Error) {
 
 	switch vFrom.Type() {
 	case tConfig:
-		return vFrom.Addr().Interface().(*Config), nil
+		// a Config passed by value is not addressable: tryTConfig takes a copy then
+		v, _ := tryTConfig(vFrom)
+		return v.Addr().Interface().(*Config), nil
 	case tConfigMap:
 		return normalizeMap(opts, vFrom)
 	default:
